@@ -138,7 +138,7 @@ def run_wave(desc):
     drv.start()
     R = None
     try:
-        R = plainrun.execute(desc, pre=lambda nid, att: drv.gate(nid), record_args=False, ir=irr,
+        R = plainrun.execute(desc, pre=lambda nid, att: drv.gate(nid), record_args=False, ir=irr, hang_watch=False,
                              before_run=lambda R_: holder.__setitem__("R", R_))
     finally:
         drv.run_done = True
